@@ -274,7 +274,7 @@ class StubContract:
 
     def calc_txn_aggregates(self, proofs, scope=None):
         self.calls.append('agg')
-        return SDict({scope: self.c.int('contract.aggregate')})
+        return self.c.dict({scope: self.c.int('contract.aggregate')})
 
     def abi(self, args):
         self.calls.append('abi')
